@@ -122,6 +122,8 @@ pub fn solve_milp_lp_problem_with(
         )));
     }
     let mut microlp_vars = Vec::with_capacity(variables.len());
+    // negative halves of free variables, see below
+    let mut negative_parts: Vec<Option<microlp::Variable>> = vec![None; variables.len()];
     let opt_type = match lp.optimization_type() {
         OptimizationType::Max => OptimizationDirection::Maximize,
         OptimizationType::Min => OptimizationDirection::Minimize,
@@ -132,6 +134,15 @@ pub fn solve_milp_lp_problem_with(
         let var_domain = domain.get(var).unwrap();
         let coeff = objective[i];
         let added_var = match var_domain.get_type() {
+            // microlp mishandles variables without any finite bound (wrong
+            // Unbounded verdicts, internal errors, endless pivoting), so a free
+            // variable is handed over as the difference of two non-negative ones
+            VariableType::Real(min, max)
+                if *min == f64::NEG_INFINITY && *max == f64::INFINITY =>
+            {
+                negative_parts[i] = Some(problem.add_var(-coeff, (0.0, f64::INFINITY)));
+                problem.add_var(coeff, (0.0, f64::INFINITY))
+            }
             VariableType::Real(min, max) => problem.add_var(coeff, (*min, *max)),
             VariableType::Boolean => problem.add_binary_var(coeff),
             VariableType::IntegerRange(min, max) => problem.add_integer_var(coeff, (*min, *max)),
@@ -159,11 +170,16 @@ pub fn solve_milp_lp_problem_with(
                 });
             }
         };
-        let microlp_coeffs = microlp_vars
+        let mut microlp_coeffs = microlp_vars
             .iter()
             .zip(coeffs.iter())
             .map(|(v, c)| (*v, *c))
             .collect::<Vec<_>>();
+        for (negative, c) in negative_parts.iter().zip(coeffs.iter()) {
+            if let Some(negative) = negative {
+                microlp_coeffs.push((*negative, -*c));
+            }
+        }
         problem.add_constraint(microlp_coeffs, microlp_comparison_type, rhs);
     }
 
@@ -179,11 +195,18 @@ pub fn solve_milp_lp_problem_with(
 
     match problem.solve_with(solve_options) {
         Ok(s) => {
-            let assignment = microlp_vars
+            let value_of = |index: usize| {
+                let positive = s.var_value(microlp_vars[index]);
+                match negative_parts[index] {
+                    Some(negative) => positive - s.var_value(negative),
+                    None => positive,
+                }
+            };
+            let assignment = variables
                 .iter()
-                .zip(variables)
-                .map(|(v, name)| {
-                    let value = s.var_value(*v);
+                .enumerate()
+                .map(|(index, name)| {
+                    let value = value_of(index);
                     let var_domain = domain.get(name).unwrap();
                     let value = match var_domain.get_type() {
                         VariableType::Real(_, _) | VariableType::NonNegativeReal(_, _) => {
@@ -198,7 +221,7 @@ pub fn solve_milp_lp_problem_with(
                     }
                 })
                 .collect();
-            let coeffs = microlp_vars.iter().map(|v| s.var_value(*v)).collect();
+            let coeffs = (0..variables.len()).map(value_of).collect();
             let constraints = make_constraints_map_from_assignment(lp, &coeffs);
             Ok(LpSolution::new(
                 assignment,
